@@ -190,6 +190,16 @@ def h_verify_binder(ex, recv, args, kwargs, st, fr, node):
                            _cmp('ge')(total, n) == z3.Not(expired))
             OB(ex, st, 'psk:ticket-age-checked-against-settings.ticketLifetime-before-the-ticket-is-used',
                z3.Implies(order, z3.Or(z3.Not(v_truthy(T(tk))), z3.Not(expired))))
+    # C13/C05: the binder key derivation depends on where the PSK came from (RFC 8446 7.1 "ext binder" | "res binder"):
+    # external exactly for a PSK of settings.pskConfigs, resumption exactly for a ticket decrypted for THIS identity
+    td = st.ghost.get('tryDecrypt_result')
+    if len(args) > 5 and tk is not None:
+        ext_ = T(args[5])
+        from pyvc.values import VBool as _VB
+        is_true, is_false = ext_ == T(_VB(TRUE)), ext_ == T(_VB(FALSE))
+        from_ticket = FALSE if td is None else T(tk) == GETITEM(T(td), T(VInt(1)))
+        OB(ex, st, 'psk:binder-flavour(external|resumption)-matches-the-origin-of-this-identitys-PSK',
+           z3.Or(z3.And(is_true, T(tk) == v_none), z3.And(is_false, from_ticket)))
     ok, bad = st, st.fork()
     ok.ghost['binder_pos'] = args[2] if len(args) > 2 else None
     ok.ghost['binder_secret'] = args[3] if len(args) > 3 else None
@@ -197,6 +207,12 @@ def h_verify_binder(ex, recv, args, kwargs, st, fr, node):
     gset(ok, 'binder_ok')
     return [Outcome('normal', ok, VNone()),
             Outcome('raise', bad, VExc(TLSIllegalParameterException, [], 'verify_binder line %d' % node.lineno))]
+
+
+def h_tryDecrypt(ex, recv, args, kwargs, st, fr, node):
+    r = fresh_opaque('tryDecrypt')
+    st.ghost['tryDecrypt_result'] = r
+    return [Outcome('normal', st, r)]
 
 
 def h_ver_func(ex, recv, args, kwargs, st, fr, node):
@@ -300,7 +316,7 @@ def on_compare(ex, node, l, r, st, fr):
 
 SPEC = M2Spec(hooks={'_sendError': h_sendError, '_getMsg': h_getMsg, 'copy': h_copy, 'digest': h_digest,
                      'secureHMAC': h_secureHMAC, '_queue_flush': h_queue_flush, '_queue_message': h_queue_message,
-                     'verify_binder': h_verify_binder, 'time': h_time, 'ver_func': h_ver_func, 'calcVerifyBytes': h_calcVerifyBytes,
+                     'verify_binder': h_verify_binder, 'time': h_time, '_tryDecrypt': h_tryDecrypt, 'ver_func': h_ver_func, 'calcVerifyBytes': h_calcVerifyBytes,
                      'getEndEntityPublicKey': h_getkey, '_sigHashesToList': h_sigHashesToList, 'create': h_create},
               pure={'getExtension', 'toRepr', 'getHash', 'getPadding', 'isinstance', 'len', 'HKDF_expand_label',
                     'derive_secret', 'decode', '_getPRFParams', 'getattr', 'getNumCerts'})
